@@ -2,6 +2,7 @@ import EdpVerif.Drv.Etf
 import EdpVerif.Drv.C02
 import EdpVerif.Drv.C03
 import EdpVerif.Drv.C04
+import EdpVerif.Drv.C04Net
 import EdpVerif.Drv.C05
 import EdpVerif.Drv.C06
 import EdpVerif.Drv.C07
@@ -21,7 +22,7 @@ import EdpVerif.Drv.C20
 namespace Edp.Drv
 
 def handlers : List (List String → Option String) :=
-  [handleEtf, handleC02, handleC03, handleC04, handleC05, handleC06, handleC07, handleC08, handleC09, handleC10,
+  [handleEtf, handleC02, handleC03, handleC04, handleC04Net, handleC05, handleC06, handleC07, handleC08, handleC09, handleC10,
    handleC11, handleC12, handleC13, handleC14, handleC15, handleC16, handleC17, handleC18, handleC19, handleC20]
 
 def handle (args : List String) : String :=
